@@ -169,7 +169,7 @@ def gen_laws(rng, n):
             for _ in range(rng.randint(1, 3)):
                 history.append({"target": rng.choice(["A", "A", "B", "X"]), "how": rng.choice(["item", "item", "slice", "ellipsis"])})
         yield {"op": "laws", "kind": kind, "cx": cx, "shape": shape, "tshape": ts, "n": rng.choice([2, 2, 3, 4]), "seed": rng.randrange(10 ** 9),
-               "history": history, "identity": c // 3}
+               "history": history, "identity": c // 3, "prequery": c % 3 == 0}
 
 
 def run_laws(inp):
@@ -220,6 +220,17 @@ def run_laws(inp):
         elif (L.aux_data is None) != (Ra is None) or (Ra is not None and not O.aux_proj_eq(kind, L.aux_data, Ra, 10 * tol)):
             bad.append({"what": what + ":aux", "expected": "derived data equal projectively"})
 
+    if inp.get("prequery") and not cx:
+        for _, f, _ in O.query_set(kind, X, n) + O.query_set("transformation", A, n) + O.query_set("transformation", B, n):
+            O._run_q(f)
+        for who, o, k in (("A @ X", A @ X, kind), ("A @ B", A @ B, "transformation"), ("X", X, kind), ("A.inv()", A.inv(), "transformation")):
+            why = O.fresh_diff(k, o, n, 1e-6, mutate=True)
+            if why:
+                bad.append({"what": "differs_from_fresh_object", "object": who, "query": why,
+                            "expected": "queries on an image / on an object that was queried before = the same queries on a fresh object"})
+                break
+        x0 = np.array(X.proj_data)              # (the queries may have rescaled stored rows in place)
+        a0 = None if X.aux_data is None else np.array(X.aux_data)
     AB = A @ B
     if type(AB) is not type(B) or tuple(AB.shape) != tuple(np.broadcast_shapes(tuple(A.shape), tuple(B.shape))):
         bad.append({"what": "compose:type/shape", "got": [type(AB).__name__, list(AB.shape)]})
@@ -343,6 +354,35 @@ def run_rep(inp):
             bad.append({"what": "type/shape", "word": w})
         elif not O.rows_proj_eq(R.proj_data, want, 1e-7) or not O.allclose(R.proj_data, want, 1e-6):
             bad.append({"what": "word_action", "word": w, "expected": "rep[w] @ p = (matrix of w) . (column p)"})
+    # G2: what rep[...] hands out is the caller's: overwriting it must not change the representation
+    for k in order:
+        M = rep[k]
+        m0 = np.array(M.matrix)
+        M.proj_data[...] = 0
+        if not O.allclose(rep[k].matrix, m0, 1e-12):
+            bad.append({"what": "rep_generator_aliased", "g": k, "expected": "rep[g] unchanged after overwriting the matrix it returned"})
+    wv = rep[inp["words"][0]]
+    w0 = np.array(wv.matrix)
+    wv.proj_data[...] = 0
+    if not O.allclose(rep[inp["words"][0]].matrix, w0, 1e-12):
+        bad.append({"what": "rep_word_aliased", "word": inp["words"][0]})
+    # G2: one-shot iterables, tuples where lists are accepted
+    for nm, ws in (("tuple", tuple(inp["words"])), ("iterator", iter(list(inp["words"]))), ("generator", (w for w in inp["words"]))):
+        try:
+            E = rep.elements(ws)
+            if not O.allclose(E.matrix, rep.elements(list(inp["words"])).matrix, 1e-12):
+                bad.append({"what": "elements_iterable", "container": nm})
+        except Exception as e:
+            bad.append({"what": "elements_iterable_raised", "container": nm, "exc": type(e).__name__})
+    # G3: an unrelated representation with the same generator names, used in between, changes nothing
+    other = type(rep)()
+    for k in order:
+        other[k] = O.isometries(g, [], n) if inp["hyp"] else O.invertibles(g, [], n)
+    before = [np.array(rep[w].matrix) for w in inp["words"]]
+    other.elements(list(inp["words"]))
+    other.freely_reduced_elements(2)
+    if not all(O.allclose(rep[w].matrix, b, 1e-12) for w, b in zip(inp["words"], before)):
+        bad.append({"what": "representations_not_independent"})
     # the batched APIs return, word by word, the single-word image
     batched = [("elements", rep.elements(inp["words"]))]
     batched.append(("isometries", rep.isometries(inp["words"])) if inp["hyp"] else ("transformations", rep.transformations(inp["words"])))
@@ -410,7 +450,8 @@ def run_rep(inp):
 # ------------------------------------------------------------------ oracle: the action is the geometric one (incidence is preserved)
 def gen_inc(rng, n):
     for c in range(n):
-        yield {"op": "incidence", "kind": ["hyperplane", "dualpoint", "subspace", "geodesic", "convexpolygon", "convexpolygon"][c % 6],
+        yield {"op": "incidence", "kind": ["hyperplane", "dualpoint", "subspace", "geodesic", "convexpolygon", "convexpolygon", "dualobject"][c % 7],
+               "cx": (c // 7) % 2 == 1,
                "shape": rng.choice(O.SHAPES[:6]), "n": rng.choice([2, 3]), "seed": rng.randrange(10 ** 9)}
 
 
@@ -419,12 +460,34 @@ def run_inc(inp):
     kind, n, shape = inp["kind"], inp["n"], tuple(inp["shape"])
     bad = []
     J = np.diag([-1.0] + [1.0] * n)
+    if kind == "dualobject":
+        # a generic object carrying dual data (dual_ndims=1): a point w and a functional f with f.w = 0 stay incident; real and complex matrices
+        cx = inp.get("cx", False)
+        cnt = shape
+        rnd = lambda sh: g.normal(size=sh) + (1j * g.normal(size=sh) if cx else 0)
+        w = rnd(cnt + (n + 1,))
+        f = rnd(cnt + (n + 1,))
+        f = f - w * (np.sum(f * w, axis=-1) / np.sum(w * w, axis=-1))[..., None]        # f.w = 0 (bilinear pairing, no conjugation)
+        X = P.ProjectiveObject(w, dual_data=f, unit_ndims=1, dual_ndims=1)
+        A, B = O.invertibles(g, [], n, cx), O.invertibles(g, [], n, cx)
+        Y = A @ X
+        pair = np.sum(np.array(Y.proj_data) * np.array(Y.dual_data), axis=-1)
+        if np.abs(pair).max() > 1e-7 * (1 + np.abs(Y.proj_data).max() * np.abs(Y.dual_data).max()):
+            bad.append({"what": "dual_incidence", "complex": cx, "expected": "image functional vanishes on the image point (f.w = 0 is preserved)"})
+        L, R = (A @ B) @ X, A @ (B @ X)
+        if not (O.rows_proj_eq(L.dual_data, R.dual_data, 1e-7) and O.rows_proj_eq(L.proj_data, R.proj_data, 1e-7)):
+            bad.append({"what": "dual_assoc", "complex": cx})
+        Z = A.inv() @ (A @ X)
+        if not (O.rows_proj_eq(Z.dual_data, f, 1e-7) and O.rows_proj_eq(Z.proj_data, w, 1e-7)):
+            bad.append({"what": "dual_inverse", "complex": cx})
+        return {"bad": bad}
     if kind == "convexpolygon":
-        # the one class with dual data: a functional f (the chart is the complement of the hyperplane f.w = 0); any invertible A
+        # the one class with dual data: a functional f (the chart is the complement of the hyperplane f.w = 0); any invertible A, real or complex
+        cx = inp.get("cx", False)
         verts = np.concatenate([np.ones((5, 1)), O.klein(g, (5,), n)], axis=-1)
         f = np.concatenate([[1.0], g.uniform(-0.3, 0.3, n)])
         X = P.ConvexPolygon(verts, dual_data=f)
-        A, B = O.invertibles(g, [], n), O.invertibles(g, [], n)
+        A, B = O.invertibles(g, [], n, cx), O.invertibles(g, [], n, cx)
         # points of the dual hyperplane: a basis of the kernel of f
         W = np.concatenate([-f[1:, None] / f[0], np.identity(n)], axis=1)
         Y = A @ X
@@ -434,8 +497,8 @@ def run_inc(inp):
             img = W @ np.array(A.matrix)
             if np.abs(img @ np.array(Y.dual_data)).max() > 1e-7 * (1 + np.abs(img).max() * np.abs(Y.dual_data).max()):
                 bad.append({"what": "dual_incidence", "expected": "the image functional vanishes on the images of the points of the dual hyperplane"})
-            sg = np.sign(np.array(Y.proj_data) @ np.array(Y.dual_data))
-            if not (np.all(sg > 0) or np.all(sg < 0)):
+            sg = np.sign(np.real(np.array(Y.proj_data) @ np.array(Y.dual_data)))
+            if not cx and not (np.all(sg > 0) or np.all(sg < 0)):
                 bad.append({"what": "dual_chart", "expected": "all image vertices on one side of the image hyperplane"})
             L, R = (A @ B) @ X, A @ (B @ X)
             if not (O.rows_proj_eq(L.dual_data, R.dual_data, 1e-7) and O.rows_proj_eq(L.proj_data, R.proj_data, 1e-7) and O.rows_proj_eq(L.aux_data, R.aux_data, 1e-7)):
@@ -484,6 +547,11 @@ CLAUSES = [
            what="the action is the geometric one: A@Hyperplane / A@DualPoint is Minkowski-orthogonal to the images of the points of the original hyperplane, A@Subspace / A@Geodesic "
                 "contains the images of points of the original, and for the class with dual data (ConvexPolygon with a supplied functional, any invertible A) the image functional "
                 "vanishes on the images of the dual hyperplane, keeps all vertices on one side, and satisfies the action laws"),
+    Clause("apply_per_unit", "oracle", O.gen_apply, O.run_apply, O.judge_bad, site="projective.Transformation.apply",
+           budget={"quick": 198, "thorough": 3000},
+           what="T.apply(X, elementwise|pairwise|pairwise_reversed): type, composite shape law, shape and values of primary AND derived data of the result at every index = "
+                "transformation unit applied to object unit (11 kinds, composite polygons incl.), objects with per-unit scales 1e-12..1e12, objects and transformations that "
+                "were queried before being transformed compared with fresh objects"),
     Clause("apply_corr", "corr", gen_apply, run_apply, judge_apply, lean=lean_apply, site="projective.Transformation.apply",
            budget={"quick": 396, "thorough": 5000},
            what="T.apply(X, mode) for each of the 11 kinds (objects built by the library, their primary and derived data sent exactly), arbitrary dyadic "
